@@ -32,7 +32,7 @@ ASSUMPTIONS = [
 ]
 
 DEFAULT_DT = (2016, 1, 1, 0, 0, 0)
-PERTURBATIONS = ["touch", "chmod", "recreate", "cwd-env", "leftovers", "all"]
+PERTURBATIONS = ["touch", "chmod", "recreate", "cwd-env", "leftovers", "listing", "all"]
 TZS = ["Asia/Tokyo", "America/New_York", "UTC", "Pacific/Chatham"]
 LOCALES = ["C", "en_US.UTF-8", "tr_TR.UTF-8", "POSIX"]
 UMASKS = [0o077, 0o002, 0o000, 0o027]
@@ -129,6 +129,9 @@ def perturbed_tree(base: Path, p: gen_project.Project, kind: str, prng: random.R
         kw["api"] = "builder"
     if kind in ("leftovers", "all"):
         leave_artefacts(root, p, prng)
+    if kind in ("listing", "all", "recreate"):
+        # ext4/tmpfs listing order does not follow creation order: permute what scandir/listdir report instead
+        kw["listing"] = (prng.choice(["reversed", "shuffled", "shuffled"]), prng.getrandbits(16))
     return root, kw
 
 
@@ -136,7 +139,10 @@ def build_both(root: Path, out: Path, p: gen_project.Project, sde: str | None, k
     res: dict[str, Any] = {}
     environ = dict(kw.get("environ") or {})
     environ["SOURCE_DATE_EPOCH"] = sde
-    with bc.env(environ=environ, umask=kw.get("umask")):
+    lst = kw.get("listing")
+    lctx = bc.listing_order(root, lst[0], lst[1]) if lst else bc.listing_order(root, "sorted")
+    with bc.env(environ=environ, umask=kw.get("umask")), lctx as lstats:
+        res["listings"] = lstats
         for fmt in ("wheel", "sdist"):
             o = out / fmt
             o.mkdir(parents=True, exist_ok=True)
@@ -191,6 +197,8 @@ def check_case(ctx: core.Ctx, p: gen_project.Project, kind: str, sde: str | None
         r0 = build_both(root0, base / "out0", p, sde, {"api": "hook"})
         root1, kw = perturbed_tree(base, p, kind, prng)
         r1 = build_both(root1, base / "out1", p, sde, kw)
+        if kw.get("listing"):
+            ctx.count("listings-permuted", r1["listings"]["listings"])
         lines: list[str] = []
         slots: list[tuple[str, Any]] = []
         for fmt in ("wheel", "sdist"):
@@ -241,8 +249,10 @@ def check_case(ctx: core.Ctx, p: gen_project.Project, kind: str, sde: str | None
             else:
                 tar_dir = d1.file_name[: -len(".tar.gz")]
                 last = d1.members[-1]
+                has_setup = bool(p.meta.get("generate_setup"))
+                su = d1.members[-2] if has_setup and len(d1.members) >= 2 else {"digest": "", "size": 0}
                 lines.append(core.line("bsdist", tar_dir, "0" if sde is None else "1", sde or "", last["digest"], str(last["size"]),
-                                       *r1["sdist_stat"]))
+                                       "1" if has_setup else "0", su["digest"], str(su["size"]), *r1["sdist_stat"]))
                 slots.append(("sdist", (b1, d1)))
         lines.append(core.line("btime", "wheel", "0" if sde is None else "1", sde or ""))
         lines.append(core.line("btime", "sdist", "0" if sde is None else "1", sde or ""))
@@ -349,6 +359,57 @@ def hashseed_case(ctx: core.Ctx, p: gen_project.Project, seeds: tuple[int, ...],
         bc.rmtree(base)
 
 
+def setup_stream(ctx: core.Ctx, p: gen_project.Project, pseed: int) -> None:
+    """`SdistBuilder.find_packages` (packages / package_data of the generated setup.py): real result vs model, on the
+    tree as listed and on a shuffled listing; the two real results must agree (they feed setup.py)."""
+    from poetry.core.factory import Factory
+    from poetry.core.masonry.builders.sdist import SdistBuilder
+    from poetry.core.masonry.utils.package_include import PackageInclude
+    bc._quiet()
+    base = bc.scratch("pcv-c08s-")
+    RS = "\x1e"
+    try:
+        root = bc.materialise(p, parent=str(base), dirname=p.meta.get("root_dirname", "proj"))
+        results = []
+        lines = []
+        for mode in ("sorted", "shuffled"):
+            with bc.listing_order(root, mode, pseed):
+                sb = SdistBuilder(Factory().create_poetry(root, with_groups=False))
+                for inc in sb._module.includes:
+                    if not (isinstance(inc, PackageInclude) and inc.is_package() and "sdist" in inc.formats):
+                        continue
+                    _pkgdir, packages, pkg_data = sb.find_packages(inc)
+                    wbase = str(inc.elements[0].parent)
+                    dirs = []
+                    for path, _dn, filenames in os.walk(wbase, topdown=True):
+                        rel = os.path.relpath(path, wbase)
+                        if Path(path).name == "__pycache__" or rel == ".":
+                            continue
+                        fs = [RS.join([fn, "1" if fn.endswith(".py") else "0",
+                                       "1" if sb.is_excluded(Path(path, fn).relative_to(sb._path)) else "0"]) for fn in filenames]
+                        dirs.append(pack(Path(rel).as_posix(), *fs))
+                    lines.append(core.line("bsetup", inc.package, *dirs))
+                    results.append((mode, inc.package, packages, sorted((k, list(v)) for k, v in pkg_data.items())))
+        rep = core.run_driver(lines)
+        dis = 0
+        for (mode, pkg, packages, data), r in zip(results, rep):
+            model_p = r[1].split(US) if len(r) > 1 else []
+            model_d = [(x.split(US)[0], x.split(US)[1:]) for x in r[2:]]
+            if r[0] != "ok" or model_p != packages or model_d != data:
+                dis += 1
+                ctx.disagree("find-packages", {"project": p.name, "package": pkg, "listing": mode}, [packages, data], r[1:])
+            ctx.evaluations += 1
+        half = len(results) // 2
+        for a, b2 in zip(results[:half], results[half:]):
+            if a[1:] != b2[1:]:
+                ctx.violate("setup-listing:" + p.signature(), f"setup.py lists of package {a[1]!r} depend on the directory listing order: {a[2:]} vs {b2[2:]}"[:600],
+                            {"project": p.to_json(), "perturbation": "setup-listing", "pseed": pseed})
+        ctx.stream("find-packages", len(results), dis)
+        ctx.count("find-packages", len(results))
+    finally:
+        bc.rmtree(base)
+
+
 def time_stream(ctx: core.Ctx) -> None:
     """SOURCE_DATE_EPOCH parsing and calendar: model vs the real properties on a builder object (no build)"""
     from poetry.core.factory import Factory
@@ -420,9 +481,11 @@ def correspondence(ctx: core.Ctx) -> None:
             ctx.count("feature:" + f)
         sdes = sde_values(rnd)
         rnd.shuffle(sdes)
-        for kind, sde in zip(PERTURBATIONS, sdes):
+        for kind, sde in zip(PERTURBATIONS, sdes + [rnd.choice(sdes)]):
             check_case(ctx, p, kind, sde, rnd.getrandbits(32), "rebuild")
-        if i < ctx.budget(6, 60):
+        if p.meta.get("generate_setup"):
+            setup_stream(ctx, p, rnd.getrandbits(16))
+        if i < ctx.budget(4, 60):
             hashseed_case(ctx, p, (rnd.randint(1, 1000), rnd.randint(1001, 2000)), "hashseed")
 
 
@@ -441,6 +504,9 @@ def replay(ctx: core.Ctx, payload: dict[str, Any]) -> bool:
     w = payload.get("witness", payload)
     before = len(ctx.violations)
     p = gen_project.Project.from_json(w["project"])
+    if w.get("perturbation") == "setup-listing":
+        setup_stream(ctx, p, int(w.get("pseed", 0)))
+        return len(ctx.violations) > before
     if w.get("perturbation") == "hashseed":
         hashseed_case(ctx, p, tuple(w.get("seeds", [1, 2])), "replay")
         return len(ctx.violations) > before
